@@ -608,6 +608,15 @@ func (root *Root) validateDirUse(where string, loc Location, du *DirectiveUse) (
 			}
 		}
 	}
+	// A use read before its directive was known has only the arguments that
+	// were written. A required argument that was left out is as missing as
+	// the null the parser fills in when the directive is known already.
+	for _, a = range d.args.list {
+		if _, ok := a.Type.(*NonNull); ok && a.Default == nil && du.Args[a.N] == nil {
+			errs = append(errs, fmt.Errorf("%w, directive argument %s for directive %s on %s is required but missing at %d:%d",
+				ErrValidation, a.N, d.Name(), where, du.line, du.col))
+		}
+	}
 	return
 }
 
